@@ -202,7 +202,16 @@ fn do_replay(ctx: &Ctx, def: &props::PropDef, path: &str) -> ! {
         eprintln!("cannot parse {path}: {e}");
         std::process::exit(2);
     });
-    let subname = v["sub"].as_str().unwrap_or("");
+    let mut subname = v["sub"].as_str().unwrap_or("");
+    if let Some(base) = subname.strip_suffix("[dbg]") {
+        if ctx.profile != "dbg" {
+            // the case failed in the debug-assertions build: replay it there
+            let bin = format!("{}/target/dbg/vcheck", verif_root());
+            let st = std::process::Command::new(&bin).args(std::env::args().skip(1)).status();
+            std::process::exit(st.ok().and_then(|s| s.code()).unwrap_or(2));
+        }
+        subname = base;
+    }
     let sub = def.subs.iter().find(|s| s.name() == subname).unwrap_or_else(|| {
         eprintln!("replay file names unknown sub-check {subname}");
         std::process::exit(2);
